@@ -1299,45 +1299,132 @@ class reductions_numpy:
             yield {"func": f, "chunks": l, "axis": a, "keepdims": k, "split_every": s, "nanpat": p}
 
 
-@contract("dask_array/reductions/_reduction.py::_build_tree_reduce_expr", spec="depth", props=["C18"])
-class tree_depth:
-    """the tree of partial reductions always reaches one block along every reduced axis (the depth is computed with a float
-    logarithm: bounded check of k**ceil(log(n, k)) >= n, and of the built expression's block counts)"""
+@contract("dask_array/reductions/_reduction.py::reduction", spec="ties-and-empty-blocks", props=["C18"])
+class reductions_ties_empty:
+    """arg-reductions on data with many ties (NumPy returns the first occurrence in flat / lane order -- whatever block
+    the tie sits in), and every reducer over layouts that contain zero-width blocks on the reduced axis, with and without
+    an intermediate combine level"""
     bounded_only = True
-    params = {"n": "const", "k": "const"}
-    scope = "n <= 2000 blocks exhaustively for 2 <= k <= 16 (quick) / n <= 200000 (thorough); built expressions for n <= 40"
+    params = {"func": "const", "data": "const", "chunks": "const", "axis": "const", "split_every": "const"}
+    scope = ("2x4 and 4x6 integer-valued float data with ties; layouts incl. zero-width blocks; 14 reducers; axis None/0/1; "
+             "split_every None/2")
 
     def real():
-        import math
-        return lambda n, k: int(max(1, math.ceil(math.log(n, k)))) if n > 1 else 1
+        return lambda x, func, **kw: getattr(x, func)(**kw)
 
-    def call(fn, n, k):
-        depth = fn(n, k)
-        nb = None
-        if n <= 40:
-            import numpy as np
+    def call(fn, func, data, chunks, axis, split_every):
+        import numpy as np
+        import dask_array as da
+        d = {"t24": np.array([[5.0, 5, 5, 0], [0, 5, 5, 5]]),
+             "t46": (np.arange(24.0).reshape(4, 6) * 5 % 3),
+             "v6": np.arange(6.0),
+             "m62": np.arange(12.0).reshape(6, 2)}[data]
+        x = da.from_array(d, chunks=chunks)
+        kw = {} if split_every is None else {"split_every": split_every}
+        got = getattr(da, func)(x, axis=axis, **kw)
+        return np.asarray(got.compute()), np.asarray(getattr(np, func)(d, axis=axis))
+
+    def requires(func, data, chunks, axis, split_every):
+        return True
+
+    def ensures(result, func, data, chunks, axis, split_every):
+        got, want = result
+        return {"equals-numpy": _same(got, want)}
+
+    def domain(tier, rng):
+        args = ["argmin", "argmax", "nanargmin", "nanargmax"]
+        others = ["sum", "mean", "var", "std", "min", "max", "nanmin", "nanmax", "prod", "any"]
+        for f in args:
+            for lay in (((2,), (2, 2)), ((1, 1), (2, 2)), ((1, 1), (1, 3)), ((2,), (4,)), ((1, 1), (1, 1, 1, 1))):
+                for ax in (None, 0, 1):
+                    for se in (None, 2):
+                        yield {"func": f, "data": "t24", "chunks": lay, "axis": ax, "split_every": se}
+            for lay in (((2, 2), (3, 3)), ((1, 3), (2, 2, 2)), ((4,), (1, 5)), ((2, 0, 2), (3, 3)), ((2, 2), (3, 0, 3))):
+                for ax in (None, 0, 1):
+                    yield {"func": f, "data": "t46", "chunks": lay, "axis": ax, "split_every": None}
+        for f in others + args:
+            for lay in (((2, 0, 4),), ((2, 0, 3, 1),), ((0, 6),), ((3, 3, 0),)):
+                for se in (None, 2):
+                    yield {"func": f, "data": "v6", "chunks": lay, "axis": 0 if f in args else None, "split_every": se}
+            for lay in (((2, 0, 4), (2,)), ((2, 0, 3, 1), (1, 1)), ((6,), (1, 0, 1))):
+                for ax in (0, 1):
+                    for se in (None, 2):
+                        yield {"func": f, "data": "m62", "chunks": lay, "axis": ax, "split_every": se}
+
+
+@contract("dask_array/reductions/_reduction.py::_build_tree_reduce_expr", spec="depth", props=["C18"])
+class tree_depth:
+    """assumption A3 of the cascade proof, validated on the real function: the number of PartialReduce layers that
+    _build_tree_reduce_expr stacks (its depth, computed with a float logarithm) satisfies k_a ** depth >= n_a for every
+    reduced axis a with n_a blocks and per-axis fan-in k_a -- so the last layer sees at most k_a blocks and leaves one.
+    The real function is called on a stand-in input that only has `numblocks` (no data, no graph); for small n the built
+    expression is also computed"""
+    bounded_only = True
+    params = {"nb": "const", "axis": "const", "k": "const"}
+    scope = ("1 reduced axis: every n <= 2000 (quick) / 200000 (thorough) and every n within 3 of a power k**e <= 10**9, "
+             "2 <= k <= 16, int and dict split_every; 2 reduced axes: block counts around powers; built expressions for n <= 40")
+
+    def call(fn, nb, axis, k):
+        import numpy as np
+        from dask_array.reductions._reduction import PartialReduce, _normalize_split_every
+
+        class Stub:
+            numblocks = tuple(nb)
+
+        s = Stub()
+        r = fn(s, np.sum, axis, True, np.dtype("f8"), k, None, "sum", False, None)
+        depth = 0
+        while isinstance(r, PartialReduce):
+            depth += 1
+            r = r.operands[0]
+        fan = _normalize_split_every(k, axis)
+        built = None
+        if len(nb) == 1 and nb[0] <= 40:
             import dask_array as da
-            x = da.from_array(np.arange(n), chunks=1)
-            r = x.sum(split_every=k)
-            nb = (r.numblocks, int(r.compute()), int(np.arange(n).sum()))
-        return depth, nb
+            x = da.from_array(np.arange(nb[0]), chunks=1)
+            red = x.sum(split_every=k)
+            built = (red.numblocks, int(red.compute()), int(np.arange(nb[0]).sum()))
+        return depth, r is s, dict(fan), built
 
-    def requires(n, k):
-        return n >= 1 and k >= 2
+    def requires(nb, axis, k):
+        return all(n >= 1 for n in nb)
 
-    def ensures(result, n, k):
-        depth, nb = result
-        r = {"depth-suffices": k ** depth >= n}
-        if nb is not None:
-            r["single-block-and-value"] = nb[0] == () and nb[1] == nb[2]
+    def ensures(result, nb, axis, k):
+        depth, reached, fan, built = result
+        r = {"layers-stack-on-the-input": reached and depth >= 1,
+             "depth-suffices": all(fan[a] ** depth >= nb[a] for a in axis),
+             "fan-in-at-least-2": all(fan[a] >= 2 for a in axis)}
+        if built is not None:
+            r["single-block-and-value"] = built[0] == () and built[1] == built[2]
         return r
 
     def domain(tier, rng):
         top = 2000 if tier == "quick" else 200000
+        seen = set()
         for k in range(2, 17):
             for n in range(1, top + 1):
                 if n <= 40 or n % 7 == 0 or any(abs(n - k ** e) <= 1 for e in range(1, 18)):
-                    yield {"n": n, "k": k}
+                    yield {"nb": (n,), "axis": (0,), "k": k}
+            e = 1
+            while k ** e <= 10 ** 9:
+                for d in (-3, -2, -1, 0, 1, 2, 3):
+                    n = k ** e + d
+                    if n > top:
+                        yield {"nb": (n,), "axis": (0,), "k": k}
+                        yield {"nb": (n,), "axis": (0,), "k": {0: k}}
+                e += 1
+        # two reduced axes: the integer fan-in is split between them (k ** (1/2), at least 2); dict form per axis
+        for k in (2, 4, 9, 16, 25, 100):
+            kk = max(int(k ** 0.5), 2)
+            for e0 in range(1, 12):
+                for d in (-1, 0, 1):
+                    n = kk ** e0 + d
+                    if n < 1 or n > 10 ** 7:
+                        continue
+                    for m in (1, 3, kk ** 2 + 1, kk ** e0):
+                        if m <= 10 ** 7:
+                            yield {"nb": (n, m), "axis": (0, 1), "k": k}
+                            yield {"nb": (m, n, 5), "axis": (1, 0), "k": {0: 2, 1: kk}}
 
 
 # ---------------------------------------------------------------------------
